@@ -188,6 +188,19 @@ def api_streams(seed, tier):
     out.append(Stream("powers-guards-random", "topo", "topo.check", cases,
                       "ntotal = e^d and e^d +- 1 (d 2..12), guard cases (ntotal/ndim 0, index >= ntotal, negative/-0/NaN/inf/subnormal radius), 6..100 dimensions, random ntotal < 3000 x ndim 1..8"))
 
+    # 2a. radii one or two float steps below / above a lattice distance (1, sqrt 2, sqrt 3, 2, sqrt 5, sqrt 8, 3): a shell
+    #     must be inside exactly when its distance is <= radius, without any tolerance
+    def step(b, k): return b + k
+    shells = [bits(math.sqrt(q)) for q in (1, 2, 3, 4, 5, 8, 9, 10, 13, 16)]
+    cases = []
+    for (ntotal, ndim) in [(9, 2), (25, 2), (27, 3), (16, 2), (7, 1), (64, 3), (81, 4), (100, 2)]:
+        for b in shells:
+            for k in (-2, -1, 0, 1, 2):
+                for index in sorted(set([0, ntotal // 2, ntotal - 1])):
+                    cases.append(nbr_case((ntotal + index + k) % 2, ntotal, ndim, 2, index, step(b, k)))
+    out.append(Stream("shell-boundaries", "topo", "topo.check", cases,
+                      "radii at, and one / two float steps below and above, the lattice distances sqrt{1,2,3,4,5,8,9,10,13,16} on 1- to 4-dimensional lattices, centre / corner / last index"))
+
     # 2b. long one-dimensional topologies (release build: x * x, no oracle table), compared with the model AND
     #     with the geometric set (the checker does not apply the theorems' size condition: verdict 0/1, never 2)
     cases = long_1d_cases(1, rng, {"quick": [2, 2, 3, 3, 3, 3], "thorough": [6] * 6, "search": [6] * 6}[tier])     # quick: 16 cases = one per worker
